@@ -24,6 +24,13 @@ Theorem C13_serial : forall ps its fuel, Forall wfp ps -> Forall small ps -> map
   filter notnone (map fst (fst (polls serial fuel None s))) = map RPacket ps /\ snd (polls serial fuel None s) = None.
 Proof. exact transparent_serial. Qed.
 
+(* ... and the serial port's reads may additionally be interrupted (EINTR: read_exact retries) any number of times at ANY point, inside
+   link frames too: s' is any script that becomes the gapped one when its interrupt answers are dropped *)
+Theorem C13_serial_interrupted : forall ps its fuel s', Forall wfp ps -> Forall small ps -> map snd its = concat (map frag_spec ps) ->
+  drop_sint s' = concat (map (gapped STO frames_tokens_serial) its) -> (length s' < fuel)%nat ->
+  filter notnone (map fst (fst (polls serial fuel None s'))) = map RPacket ps /\ snd (polls serial fuel None s') = None.
+Proof. exact transparent_serial_interrupted. Qed.
+
 Theorem C13_can : forall ps its fuel, Forall wfp ps -> Forall small ps -> map snd its = concat (map frag_spec ps) ->
   let s := concat (map (gapped CWB frames_tokens_can) its) in (length s < fuel)%nat ->
   filter notnone (map fst (fst (polls can fuel None s))) = map RPacket ps /\ snd (polls can fuel None s) = None.
